@@ -144,22 +144,41 @@ def run_case(spec, work):
                      'msg': f'base run raised: {err}'})
         return {'violations': viol, 'counters': counters,
                 'features': ['raised'], 'nontrivial': True}
-    p = rng.permutation(len(w.query_genes))
-    wp = mapworld.derive_world(
-        w, 'perm', Xq=w.Xq[:, p],
-        query_genes=[w.query_genes[i] for i in p],
-        encoding=str(rng.choice(['dense', 'csr', 'csc'])))
-    jp, _, err = _run(wp)
-    if jp is None:
-        viol.append({'sig': 'C07:permuted-run-raises', 'msg': err})
-    else:
-        counters['pairs_gene_permutation'] = 1
-        if jp['results'] != jb['results'] or \
-                {k: sorted(v) for k, v in jp['marker_genes'].items()} != \
-                {k: sorted(v) for k, v in jb['marker_genes'].items()}:
-            viol.append({'sig': 'C07:gene-order-changes-result',
-                         'msg': 'results differ bitwise after permuting '
-                                'the query gene columns with their names'})
+    perms = [('random', rng.permutation(len(w.query_genes)))]
+    # the reference's own gene order, and that order with the first and the
+    # last marker kept in place while everything between them is shuffled
+    qpos = {g: i for i, g in enumerate(w.query_genes)}
+    in_ref = [qpos[g] for g in w.ref_genes if g in qpos]
+    rest = [i for i in range(len(w.query_genes)) if i not in set(in_ref)]
+    ref_order = np.array(in_ref + rest, dtype=int)
+    perms.append(('reference-order', ref_order))
+    allm = set()
+    for v in w.marker_table.values():
+        allm |= set(v)
+    mk = [k for k, i in enumerate(ref_order) if w.query_genes[i] in allm]
+    if len(mk) >= 4:
+        p2 = ref_order.copy()
+        inner = np.arange(mk[0] + 1, mk[-1])
+        p2[inner] = p2[rng.permutation(inner)]
+        perms.append(('markers-interior-shuffled', p2))
+    for pname, p in perms:
+        wp = mapworld.derive_world(
+            w, 'perm_' + pname, Xq=w.Xq[:, p],
+            query_genes=[w.query_genes[i] for i in p],
+            encoding=str(rng.choice(['dense', 'csr', 'csc'])))
+        jp, _, err = _run(wp)
+        if jp is None:
+            viol.append({'sig': 'C07:permuted-run-raises', 'msg': err})
+        else:
+            counters['pairs_gene_permutation'] = counters.get(
+                'pairs_gene_permutation', 0) + 1
+            if jp['results'] != jb['results'] or \
+                    {k: sorted(v) for k, v in jp['marker_genes'].items()} != \
+                    {k: sorted(v) for k, v in jb['marker_genes'].items()}:
+                viol.append({'sig': f'C07:gene-order-changes-result[{pname}]',
+                             'msg': 'results differ bitwise after permuting '
+                                    'the query gene columns with their names '
+                                    f'({pname})'})
 
     # (d) normalised query with non-marker / non-reference genes added or
     #     removed: bitwise
@@ -223,6 +242,30 @@ def run_case(spec, work):
         if re_['json'] is not None and 'results' in re_['json']:
             viol.append({'sig': 'C07:negative-raw-results-written',
                          'msg': 'failed run wrote results'})
+    # (e') the same for dense matrices stored in column-oriented / tall /
+    #      small / compressed HDF5 chunks, a negative in every third column
+    #      in turn (several files, one negative each)
+    cols = sorted({int(x) for x in rng.choice(
+        Xneg.shape[1], size=min(3, Xneg.shape[1]), replace=False)}
+        | {Xneg.shape[1] - 1})
+    for k, j2 in enumerate(cols):
+        lay = ['cols', 'tall', 'small', 'gzip', 'rows', 'wide'][
+            (spec['seed'] + k) % 6]
+        X3 = w.Xq.astype(np.float64)
+        i2 = int(rng.integers(n))
+        X3[i2, j2] = -3.0
+        wl = mapworld.derive_world(w, f'negl{k}', Xq=X3, encoding='dense',
+                                   h5_layout=lay)
+        jl, rl, err = _run(wl)
+        if jl is not None:
+            viol.append({'sig': f'C07:negative-raw-mapped[dense,{lay}]',
+                         'msg': f'raw input with X[{i2},{j2}]=-3.0 (dense, '
+                                f'HDF5 layout {lay}, shape {X3.shape}) was '
+                                f'mapped'})
+        else:
+            counters['negative_inputs_rejected_chunked_layouts'] = \
+                counters.get('negative_inputs_rejected_chunked_layouts',
+                             0) + 1
     feats = mapcases.features_of(spec)
     feats['dtype'] = spec['x_dtype']
     return {'violations': viol[:8], 'counters': counters,
